@@ -140,7 +140,7 @@ class ElectionProfile:
             else:
                 profile.nBallots += multiplier
                 ranking = [rank[0] for rank in ranking] # possibly empty
-                self.ranking = array.array('B' if profile.nCand <= 256 else 'H', ranking)
+                self.ranking = array.array('B' if profile.nCand < 256 else 'H', ranking)
 
     def __validate(self):
         "check profile for internal consistency"
